@@ -171,10 +171,10 @@ def _util(sf, op):
     if fn == "len":
         return outcome(sf.len_selfies, x)
     if fn == "alphabet_from":
-        return outcome(sf.get_alphabet_from_selfies, [x, x[: len(x) // 2]])
+        return outcome(sf.get_alphabet_from_selfies, [x, "[C][N]", x])
 
     def enc():
-        alph = sorted(sf.get_alphabet_from_selfies([x])) + ["[nop]"]
+        alph = sorted(sf.get_alphabet_from_selfies([x])) + ["[nop]", "."]
         stoi = {s: i for i, s in enumerate(alph)}
         n = sf.len_selfies(x) + 2
         if fn == "to_encoding":
